@@ -406,6 +406,10 @@ fn run_handshake(rt: &tokio::runtime::Runtime, pki: &Pki, c: &HsCase) -> HsOut {
     out
 }
 
+pub fn echo_pub(ctl: &Control, srv: Box<dyn Rw>, cli: Box<dyn Rw>, size: usize, chunk: usize) -> Result<(), String> {
+    echo(ctl, srv, cli, size, chunk)
+}
+
 /// Writes `size` bytes from each side and reads them on the other, delivering `chunk` bytes at a time.
 fn echo(ctl: &Control, mut srv: Box<dyn Rw>, mut cli: Box<dyn Rw>, size: usize, chunk: usize) -> Result<(), String> {
     for dir in 0..2 {
